@@ -177,6 +177,23 @@ def _r1_carried_state(ctx, prog, dets):
                 else:
                     ctx.violated(fi, ks, "a path from the kernel call to the end of process() does not store self.%s" % attr,
                                  text="%s after %s" % (attr, norm_text(ks.value.func)))
+            # (iv) once _new_turns has consumed the chunk (head and sample tail advance), every normal exit passes the kernel:
+            # a short cut that returns without it leaves residuals / residual index behind the consumed samples
+            nts = [x for x in walk_function(fi.node) if isinstance(x, (ast.Assign, ast.Expr)) and
+                   any(isinstance(c.func, ast.Attribute) and is_self_attr(c.func) and c.func.attr == "_new_turns"
+                       for c in calls_in(x))]
+            for nt in nts:
+                a, b = cfg.node(nt), cfg.node(ks)
+                if a is None or b is None:
+                    continue
+                if cfg.must_pass(cfg.exit, {b}, start=a):
+                    ctx.holds(fi, ks, "every path from _new_turns (chunk consumed) to the end of process() runs the kernel")
+                else:
+                    ctx.violated(fi, nt, "%s: a path from _new_turns - which consumes the chunk and advances head and sample tail - "
+                                 "reaches the end of process() without running %s and storing its residuals: the carried "
+                                 "residuals no longer match the consumed samples" % (fi.cls.name if fi.cls else fi.name,
+                                                                                    norm_text(ks.value.func)),
+                                 text="shortcut around %s" % norm_text(ks.value.func))
 
 
 # ----------------------------------------------------------------------------- R-C01-2
@@ -580,6 +597,17 @@ FN = "src/pylife/stress/rainflow/fkm_nonlinear.py"
 
 def variants():
     out = []
+
+    def shortcut_no_turn(tree):
+        f = find_func(tree, "FourPointDetector.process")
+        for i, st in enumerate(f.body):
+            if isinstance(st, ast.Assign) and any(isinstance(c.func, ast.Attribute) and c.func.attr == "_new_turns" for c in calls_in(st)):
+                tv = st.targets[0].elts[1].id
+                f.body.insert(i + 1, parse_stmt("if %s.size == 0 and self._residuals.size > 0:\n"
+                                                "    self._recorder.report_chunk(len(samples))\n    return self" % tv))
+                return True
+        return False
+    out.append(witness("four-point process returns early when the chunk decides no turn", FP, shortcut_no_turn, "R-C01-1"))
 
     def drop_store(attr):
         def e(tree):
